@@ -32,6 +32,11 @@ def build_jobs(tier, seed):
                       split_depth=8))
     jobs.append(J(H['detect'], dict(P, magic='vmdk', vmdk_ok=True,
                                     read=4096, overlays=ov), split_depth=8))
+    # arbitrary bytes at the MBR signature and the FAT look-alike positions
+    jobs.append(J(H['detect'], dict(P, magic='none', read=4096,
+                                    overlays='single',
+                                    sym_cells=[0x10, 0x15, 510, 511],
+                                    nmin=33000), split_depth=10))
     # a well-formed VHDX read in large reads of symbolic size: decisions
     # reported after a read must survive the following reads
     jobs.append(J(H['detect'], dict(P, magic='vhdx', vhdx_image=True,
